@@ -1,10 +1,10 @@
 import GMGModel.Concrete
 /-!
-# The strict association-list interpreter `Concrete.execL` agrees with `Cycle.exec`
-core Lean only.  `LMem.get d (m.set r v)` is `Cycle.upd`; hence `stepL` is `stepI` and the folds agree cell by cell.
+# The strict association-list interpreter `Concrete.execL` agrees with `MGCycle.exec`
+core Lean only.  `LMem.get d (m.set r v)` is `MGCycle.upd`; hence `stepL` is `stepI` and the folds agree cell by cell.
 -/
 namespace Concrete
-open Cycle
+open MGCycle
 
 variable {V : Type}
 
